@@ -793,8 +793,8 @@ for _n, _i in (("cols", 0), ("rows", 1)):
             yield "the-size-given-at-construction", both(result == old.size[_i], s.size[0] == old.size[0], s.size[1] == old.size[1])
 
 
-# ---- TextCanvas.__init__ over the real fields, for canvases of 0 or 1 row (`#up-to-one-row`) and of 2 rows with every
-# optional argument given (`#two-rows`).  The two loops treat every row alike, so these instances put the loop BODY under
+# ---- TextCanvas.__init__ over the real fields, for canvases of 0 or 1 row (`#up-to-one-row`) and of 2 rows with attr / cs given,
+# check_width on and no cursor (`#two-rows`).  The two loops treat every row alike, so these instances put the loop BODY under
 # contract for an arbitrary row (abstract bytes text of any length and width, run-length lists of any length); a
 # list of abstract texts of SYMBOLIC length is out of the engine's reach (no Text element shape in seqs.fresh_seq; the
 # column functions COL / BND of contracts/C11_width.py are keyed by one text's name), which is why the number of rows is
@@ -830,9 +830,7 @@ def _tc_setup(nrows_choices, all_given):
             none = not all_given and st.fork(2) == 1
             vals[name] = None if none else LRef(tuple(TC_RLE.fresh(st, f"{name}{i}") for i in range(k)))
         if all_given:
-            vals["maxcol"] = st.force(vals["maxcol"])
-            if vals["maxcol"] is None:
-                raise PathEnd()
+            # (maxcol stays optional: `max(widths)` over two rows is only reached without it)
             vals["check_width"] = True
             vals["cursor"] = None
         st.ghost["tc"] = _View(dict(k=k, rows=rows, text=vals["text"], attr=vals["attr"], cs=vals["cs"],
